@@ -1633,8 +1633,24 @@ func RunStaleMonitor(c *Case, props map[string]bool) (res Result) {
 	}
 	hx.LogHook.Store(&hook)
 	w.step = 0
-	if err := gme.UpdateMultiEndpoints(mk(F)); err != nil {
-		w.fail("C15", "update-rejected", "valid update rejected: %v", err)
+	// the update runs in a goroutine of its own: an implementation may wait for the monitors of the pools it removes before
+	// it returns, and the monitor is being held here - then the hold is given up (the scenario has nothing to show)
+	u1 := make(chan error, 1)
+	go func() { u1 <- gme.UpdateMultiEndpoints(mk(F)) }()
+	select {
+	case err := <-u1:
+		u1 <- err
+	case <-time.After(1500 * time.Millisecond):
+		w.labels["update-waits-for-the-monitor-it-removes-hold-given-up"]++
+		letGo()
+	}
+	select {
+	case err := <-u1:
+		if err != nil {
+			w.fail("C15", "update-rejected", "valid update rejected: %v", err)
+		}
+	case <-time.After(10 * time.Second):
+		w.fail("C15", "update-hangs", "UpdateMultiEndpoints did not return within 10s")
 	}
 	select {
 	case <-blocked:
